@@ -435,6 +435,9 @@ def site_of(frames, sites):
     """The function an access is attributed to: the innermost frame that is a lock-discipline site of the
     specification (else the innermost peerswap frame). The policy setters are one site `<setter>`; ReloadFile
     is distinguished by whether a setter (which holds the package mutex) called it."""
+    own = [f for f in frames if f.startswith(PEERSWAP) or f.startswith("verif/harness")]
+    if own and not own[0].startswith(PEERSWAP):
+        return None      # the access itself is in harness code (e.g. a simulated service called by the real code)
     ps = [f.replace(PEERSWAP, "") for f in frames if f.startswith(PEERSWAP)]
     for i, f in enumerate(ps):
         if f in SETTERS:
